@@ -56,7 +56,8 @@ Definition c_dump (e : cel) (D : list nid) (Fs : list (list nid)) (nodes : list 
   ++ frame 23 0 (enc_res enc_ids (h_sort h (in_list D) to_sort)).
 Definition c_dump_loose_text (t : tobj) (D : list nid) (Fs : list (list nid)) : list N :=
   let h := heap_loose (LText t) in
-  c_dump_node h (in_list D) (map in_list Fs) (fun _ => 0%nat) (t_id t).
+  c_dump_node h (in_list D) (map in_list Fs) (fun _ => 0%nat) (t_id t)
+  ++ frame 23 0 (enc_res enc_ids (h_sort h (in_list D) [])).
 
 (* ---- specification: what each relation has to return under ambient filter D and passed filter F ---- *)
 Definition ok {A} (enc : A -> list N) (a : A) : list N := 0%N :: enc a.
